@@ -125,7 +125,7 @@ Proof. exact TracingAttrP.lookup_none_iff. Qed.
 Print Assumptions C20_lookup_unknown_iff_no_id_on_the_path.
 
 (* THE ATTRIBUTION THEOREM: an event logged anywhere below the span of a registered attempt of scenario sc resolves to that
-   attempt's id and is delivered exactly once, to (sc, rt) — never to another scenario, whatever ids the spans in between
+   attempt's id and its fan-out list `recipients` is exactly [(sc, rt)] — no other scenario is in it — whatever ids the spans in between
    carry (nested scenario spans included) *)
 Theorem C20_attribution :
   forall t reg a sid sc rt x,
